@@ -36,7 +36,7 @@ class FakeSock(object):
     self.inq = []          # chunks the peer has sent, not yet read
     self.eof = False       # peer closed / connection reset
     self.rx_error = False  # recv raises instead of returning b''
-    self.fail_send = False # send raises ECONNRESET
+    self.fail_send = False # True / predicate(data): send raises ECONNRESET
     self.out = b""         # everything the controller wrote
     self.closed = False
     self.shut = False
@@ -56,7 +56,8 @@ class FakeSock(object):
   def send(self, data):
     if self.closed or self.shut:
       raise _socket.error(errno.EPIPE, "Broken pipe")
-    if self.fail_send:
+    if self.fail_send is True or (callable(self.fail_send) and self.fail_send(data)):
+      self.fail_send = True         # the connection is reset from here on
       raise _socket.error(errno.ECONNRESET, "Connection reset by peer")
     self.out += data
     return len(data)
@@ -197,6 +198,9 @@ class Env(object):
       return False
     self.socks[cid].inq.append(data)
     self._round([con])
+    # a chunk longer than one recv() stays readable: select reports it again
+    while self.socks[cid].inq and self.con_of(cid) is not None:
+      self._round([self.con_of(cid)])
     return True
 
   def peer_close(self, cid, how="eof"):
